@@ -58,7 +58,7 @@ impl<S> CipherStream<S, Aes128Cfb8Enc, Aes128Cfb8Dec> {
 impl<S, E, D> AsyncWrite for CipherStream<S, E, D>
 where
     S: AsyncWrite + Unpin,
-    E: BlockEncryptMut + Unpin,
+    E: BlockEncryptMut + Unpin + Clone,
     D: BlockDecryptMut + Unpin,
 {
     fn poll_write(
@@ -73,15 +73,27 @@ where
             return Pin::new(&mut self_mut.inner).poll_write(cx, buf);
         };
 
-        // encrypt buffer
-        let mut buf = buf.to_vec();
-        for chunk in buf.chunks_mut(Aes128Cfb8Enc::block_size()) {
+        // encrypt the buffer with a copy of the cipher: the inner stream may accept only a part of it (or
+        // nothing at all), and the keystream must only advance over the bytes that were actually accepted
+        let mut tentative = enc.clone();
+        let mut encrypted = buf.to_vec();
+        for chunk in encrypted.chunks_mut(Aes128Cfb8Enc::block_size()) {
             let gen_arr = GenericArray::from_mut_slice(chunk);
-            enc.encrypt_block_mut(gen_arr);
+            tentative.encrypt_block_mut(gen_arr);
         }
 
-        // pass to inner
-        Pin::new(&mut self_mut.inner).poll_write(cx, &buf)
+        // pass to inner and advance the cipher over exactly the accepted bytes
+        match Pin::new(&mut self_mut.inner).poll_write(cx, &encrypted) {
+            Poll::Ready(Ok(written)) => {
+                let mut accepted = buf[..written].to_vec();
+                for chunk in accepted.chunks_mut(Aes128Cfb8Enc::block_size()) {
+                    let gen_arr = GenericArray::from_mut_slice(chunk);
+                    enc.encrypt_block_mut(gen_arr);
+                }
+                Poll::Ready(Ok(written))
+            }
+            other => other,
+        }
     }
 
     fn poll_flush(self: Pin<&mut Self>, cx: &mut Context<'_>) -> Poll<Result<(), std::io::Error>> {
